@@ -30,6 +30,9 @@ def run(rep):
     rep.guard(c05.e9, rep, w, 'C12')     # ... and it is a pure function of the two keys (a visited flag on one operand makes `a == b` differ from `b == a`)
     import cache
     rep.guard(cache.cc1, rep, w, 'C12')  # a remembered key list / look-up must not outlive a change of the map     # key equality is the language's `==`: equal keys must hash alike, so no special case may be added on one side only
+    rep.guard(cache.cc2, rep, w, 'C12')
+    import c05
+    rep.guard(c05.e4, rep, w)     # a key must not change after it was inserted: tuples, ranges and strings are never written after construction (a copied-and-patched tuple carries its source's state, e.g. a remembered hash)
 
 
 def discr_switches(f, adt_path):
